@@ -4,6 +4,7 @@ import (
 	"errors"
 	"fmt"
 	"github.com/openziti/storage/ast"
+	"os"
 	"sort"
 	"strings"
 
@@ -707,8 +708,10 @@ func C05(tier string) int {
 		run(newLinkScenario("links 2x3", a2, []string{"b1", "b1x", "b2"}, true, false, 0), 0)
 		setLinksExhaustive(rep, 3)
 		c05ChildOwned(rep)
+		c05HugeIds(rep)
 	} else {
 		c05ChildOwned(rep)
+		c05HugeIds(rep)
 		run(newLinkScenario("links 2x3", a2, []string{"b1", "b1x", "b2"}, true, false, 0), 0)
 		run(newLinkScenario("ref-counted 2x2 counts<=3", a2, b2, false, true, 3), 0)
 		run(newRcOnlyScenario("ref-counted 2x2 counts<=3, stores without any plain link collection", a2, b2, 3), 0)
@@ -779,4 +782,110 @@ func c05ChildOwned(rep *report.Report) {
 	}
 	rep.Set("child_owned_link_alphabet", len(progs))
 	runE1(rep, k, explore.Config{Programs: progs})
+}
+
+// c05HugeIds: an entity whose id is as long as a bucket name may be (bbolt's maximum key size) cannot be written as a
+// link entry on the other side (the entry carries a type tag in front of the id). Whatever the collection answers,
+// the committed outcome must be symmetric: every operation runs in its own transaction that commits exactly when
+// the operation reported success.
+func c05HugeIds(rep *report.Report) {
+	dir := explore.TmpDir("c05huge")
+	defer os.RemoveAll(dir)
+	for _, size := range []int{bbolt.MaxKeySize - 1, bbolt.MaxKeySize} {
+		sc := newLinkWorld()
+		db, err := boltz.Open(fmt.Sprintf("%s/huge-%d.db", dir, size), "root")
+		if err != nil {
+			panic(err)
+		}
+		if err := sc.InitDb(db); err != nil {
+			panic(err)
+		}
+		hugeA, hugeB := strings.Repeat("a", size), strings.Repeat("b", size)
+		if err := db.Update(nil, func(ctx boltz.MutateContext) error {
+			for _, id := range []string{hugeA, "a1"} {
+				if err := sc.A.Create(ctx, newLinkRec("as", id)); err != nil {
+					return err
+				}
+			}
+			for _, id := range []string{hugeB, "b1"} {
+				if err := sc.B.Create(ctx, newLinkRec("bs", id)); err != nil {
+					return err
+				}
+			}
+			return nil
+		}); err != nil {
+			panic(fmt.Sprintf("C05 harness: entities with ids of %d bytes cannot be created: %v", size, err))
+		}
+		ops := []struct {
+			name string
+			do   func(tx *bbolt.Tx) error
+		}{
+			{"A.AddLinks(huge,[b1])", func(tx *bbolt.Tx) error { return sc.la.AddLinks(tx, hugeA, "b1") }},
+			{"A.AddLink(huge,b1)", func(tx *bbolt.Tx) error { _, err := sc.la.AddLink(tx, []byte(hugeA), []byte("b1")); return err }},
+			{"A.SetLinks(huge,[b1])", func(tx *bbolt.Tx) error { return sc.la.SetLinks(tx, hugeA, []string{"b1"}) }},
+			{"B.AddLinks(b1,[huge])", func(tx *bbolt.Tx) error { return sc.lb.AddLinks(tx, "b1", hugeA) }},
+			{"A.AddLinks(a1,[hugeB])", func(tx *bbolt.Tx) error { return sc.la.AddLinks(tx, "a1", hugeB) }},
+			{"B.AddLinks(hugeB,[a1])", func(tx *bbolt.Tx) error { return sc.lb.AddLinks(tx, hugeB, "a1") }},
+			{"A.AddLinks(huge,[hugeB])", func(tx *bbolt.Tx) error { return sc.la.AddLinks(tx, hugeA, hugeB) }},
+			{"A.rc.Increment(huge,b1)", func(tx *bbolt.Tx) error {
+				_, err := sc.ra.IncrementLinkCount(tx, []byte(hugeA), []byte("b1"))
+				return err
+			}},
+			{"B.rc.Increment(b1,huge)", func(tx *bbolt.Tx) error {
+				_, err := sc.rb.IncrementLinkCount(tx, []byte("b1"), []byte(hugeA))
+				return err
+			}},
+			{"A.rc.SetLinkCount(huge,b1,2)", func(tx *bbolt.Tx) error {
+				_, _, err := sc.ra.SetLinkCount(tx, []byte(hugeA), []byte("b1"), 2)
+				return err
+			}},
+			{"A.rc.Increment(a1,hugeB)", func(tx *bbolt.Tx) error {
+				_, err := sc.ra.IncrementLinkCount(tx, []byte("a1"), []byte(hugeB))
+				return err
+			}},
+		}
+		short := func(id string) string {
+			if len(id) > 8 {
+				return fmt.Sprintf("<%d bytes of %q>", len(id), id[:1])
+			}
+			return id
+		}
+		for _, op := range ops {
+			op := op
+			rep.Count("evaluations", 1)
+			rep.Count("huge_id_cases", 1)
+			var opErr error
+			var pan interface{}
+			_ = db.Update(nil, func(ctx boltz.MutateContext) error {
+				defer func() {
+					if pan = recover(); pan != nil {
+						panic(pan) // roll back
+					}
+				}()
+				opErr = op.do(ctx.Tx())
+				return opErr
+			})
+			label := fmt.Sprintf("ids of %d bytes: %s (reported %v)", size, op.name, opErr != nil)
+			_ = db.View(func(tx *bbolt.Tx) error {
+				for _, a := range []string{hugeA, "a1"} {
+					for _, b := range []string{hugeB, "b1"} {
+						ab := sc.la.IsLinked(tx, []byte(a), []byte(b))
+						ba := sc.lb.IsLinked(tx, []byte(b), []byte(a))
+						if ab != ba {
+							rep.Violation("C05|huge-id|one-sided|"+op.name, fmt.Sprintf("%s: %s links to %s = %v but %s links to %s = %v", label, short(a), short(b), ab, short(b), short(a), ba), map[string]interface{}{"op": op.name, "id_size": size})
+							return nil
+						}
+						c1, c2 := sc.ra.GetLinkCounts(tx, []byte(a), []byte(b))
+						if i32s(c1) != i32s(c2) {
+							rep.Violation("C05|huge-id|counts-differ|"+op.name, fmt.Sprintf("%s: reference counts of %s <-> %s are %s and %s", label, short(a), short(b), i32s(c1), i32s(c2)), map[string]interface{}{"op": op.name, "id_size": size})
+							return nil
+						}
+					}
+				}
+				rep.Outcome(fmt.Sprintf("huge-id-symmetric(reported-error=%v)", opErr != nil))
+				return nil
+			})
+		}
+		_ = db.Close()
+	}
 }
